@@ -210,6 +210,31 @@ func main() {
 			if !bytes.Equal(enc, enc2) {
 				c.Violation("rlp-fixpoint", seq, "re-encoding differs")
 			}
+			// a decoded set is a validator set like any other: bytes that list the same pairs in another order, or a
+			// validator twice (the last entry wins, as with Set), must decode to the canonical set (or be refused)
+			if len(ref) > 0 {
+				type wire struct {
+					ID     idx.ValidatorID
+					Weight pos.Weight
+				}
+				var rev, dup []wire
+				for i := len(ref) - 1; i >= 0; i-- {
+					rev = append(rev, wire{idx.ValidatorID(ref[i].ID), pos.Weight(ref[i].W)})
+				}
+				dup = append(dup, wire{idx.ValidatorID(ref[len(ref)-1].ID), 1})
+				for _, p := range ref {
+					dup = append(dup, wire{idx.ValidatorID(p.ID), pos.Weight(p.W)})
+				}
+				for wi, list := range [][]wire{rev, dup} {
+					encW, errW := rlp.EncodeToBytes(list)
+					var decW pos.Validators
+					if errW == nil && rlp.DecodeBytes(encW, &decW) == nil {
+						if !compare(c, []string{"rlp-decoded-from-reversed-wire-list", "rlp-decoded-from-wire-list-naming-a-validator-twice"}[wi], seq, &decW, ref) {
+							break
+						}
+					}
+				}
+			}
 			key := fmt.Sprint(ref)
 			if old, ok := encByFinal[key]; ok {
 				if !bytes.Equal(old, enc) {
